@@ -712,6 +712,17 @@ theorem parseExpr_before_semicolon_partial (F : Nat) (s : PState) (e : Expr) (t 
     wp (parseExpr F) s (fun e' s' => e' = e ∧ RT.Stand s' (';' :: t) ∧ RT.Same s s') RT.IsFuel :=
   C02.Semi.RT.parseExpr_semi F s e t he hat
 
+open PrintedQuery in
+/-- Obligation on the regenerated tables (keyword table, dispatch tree of parse_tree.go): the keyword
+paths of the expression-bearing families — DELETE, DROP SERIES, SHOW SERIES, SHOW TAG KEYS, SHOW FIELD
+KEYS, SHOW MEASUREMENTS, SELECT — consist of keywords, select their handlers from the root within the
+rounds `ParseStatement` grants, and begin with a token that is neither EOF nor `;`. -/
+theorem gen_exprPaths : ∀ p ∈ exprPaths,
+    (∀ t ∈ p.1, t.isKw = true) ∧ C01.dispatchPath 0 p.1 = some p.2 ∧ p.1.length ≤ Gen.dispatch.length + 1 ∧
+      (match p.1 with
+       | [] => false
+       | t :: _ => t != .EOF && t != .SEMICOLON) = true := PrintedQuery.gen_exprPaths
+
 open PrintedQuery RenderPrinted in
 /-- **C16 (a) for printed queries with expression-bearing statements.** `qs` is any list of printed
 statements of a proved family of either kind: `QStmt.plain p` — zero-argument SHOW, DROP DATABASE /
@@ -738,8 +749,8 @@ theorem parseQuery_printed_exprs_partial (qs : List QStmt) (hok : ∀ q ∈ qs, 
 open PrintedQuery RenderPrinted in
 /-- **`ParseQuery(Statements.String())` = the statements**, for the printed query itself. The hypothesis
 "no carriage return in the printed text" is decidable and only says that the reader delivers the text
-unchanged (names and strings the parser produces never contain CR; a CR inside a quoted name would be
-folded to LF by the reader, finding C05/C06 territory, not this property). -/
+unchanged (names and strings the parser produces never contain CR: the reader folds CR and CRLF to LF
+before the scanner sees them). -/
 theorem parseQuery_printed_exprs_text_partial (qs : List QStmt) (hok : ∀ q ∈ qs, q.OK)
     (hcr : ∀ c ∈ printStatements (qs.map QStmt.stmt), c ≠ '\r') (params : List (Str × BoundValue))
     (tbl : List (Char × Char)) :
